@@ -73,7 +73,12 @@ def flux_case(draw, max_n=8, reactive_only=False):
             "sources": src, "sinks": snk,
             "src_form": draw(st.sampled_from(R.SET_FORMS)), "snk_form": draw(st.sampled_from(R.SET_FORMS)),
             "pops": draw(st.sampled_from(["none", "given"]))}
-    variant = draw(st.sampled_from(["plain", "plain", "plain", "float32_dyadic", "negative_ids", "near_uniform", "thin_bridge"]))
+    variant = draw(st.sampled_from(["plain", "plain", "plain", "float32_dyadic", "negative_ids", "near_uniform", "thin_bridge",
+                                    "listed_twice"]))
+    if variant == "listed_twice":
+        case["listed_twice"] = draw(st.sampled_from(["sources", "sinks", "both"]))
+        case["src_form"] = "list" if case["src_form"] == "scalar" else case["src_form"]
+        case["snk_form"] = "list" if case["snk_form"] == "scalar" else case["snk_form"]
     if variant == "near_uniform" and ch["E"] is None:
         # a reversible chain whose stationary distribution is uniform to within ~1e-6 but NOT exactly: symmetric circulant
         # weights of order 1e6..3e7 plus small symmetric integer noise (row sums differ in the 7th digit)
@@ -165,6 +170,10 @@ class Ctx:
         if c.get("neg_ids"):
             src = [s - self.n if k % 2 == 0 else s for k, s in enumerate(src)]
             snk = [s - self.n if k % 2 == 1 else s for k, s in enumerate(snk)]
+        if c.get("listed_twice"):
+            # the same two SETS, one member written twice (ids collected from two overlapping criteria)
+            src = list(src) + ([src[0]] if c["listed_twice"] in ("sources", "both") else [])
+            snk = list(snk) + ([snk[-1]] if c["listed_twice"] in ("sinks", "both") else [])
         a = (X, R.set_arg(src, c["src_form"]), R.set_arg(snk, c["snk_form"]))
         kw = {"populations": self.pi.copy()} if c["pops"] == "given" else {}
         return a, kw
